@@ -317,8 +317,8 @@ func init() {
 				e1runSP("doc-live-n2-d2-2restores", "doc", 2, 2, "", o, 2, 0, "live"),
 				e1runS("counter-n2-d4-3restores", "counter", 2, 4, "", o, 3, 0),
 				e1runSP("counter-bound-n2-d4", "counter", 2, 4, "wrap rich", o, 1, 0, "bound"), // a counter at the edge of its range: what the snapshot holds must be all there is
-				e1runS("doc-emptykey-n2-d4", "doc", 2, 4, "key1 emptykey", o, 1, 0),   // a member whose name is the empty string, live and deleted
-				e1runSP("map-live-n2-d4-2restores", "map", 2, 4, "", o, 2, 0, "live"), // two replicas restored from equal snapshots, then one of them removes
+				e1runS("doc-emptykey-n2-d4", "doc", 2, 4, "key1 emptykey", o, 1, 0),            // a member whose name is the empty string, live and deleted
+				e1runSP("map-live-n2-d4-2restores", "map", 2, 4, "", o, 2, 0, "live"),          // two replicas restored from equal snapshots, then one of them removes
 				// a restored replica runs a failing transaction: its rollback is a second import, of what it exported itself
 				e1runSP("map-live-n2-d3-tx-restore", "map", 2, 3, "tx", append([]string{"tx"}, o...), 2, 0, "live"),
 				e1runSP("list-live-n2-d2-tx-restore", "list", 2, 2, "tx", append([]string{"tx"}, o...), 2, 0, "live"),
@@ -934,6 +934,7 @@ func init() {
 				e2run("seq-doc-2c-joined-d3", e2p{Clients: 2, Type: "doc", Prefix: "joined", Oracles: so}, 3, 0),
 				e2run("seq-list-2c-joined-d4", e2p{Clients: 2, Type: "list", Prefix: "joined", Alpha: "batch", Oracles: so}, 4, 0),
 				e2run("seq-counter-2c-entry-d5", e2p{Clients: 2, Type: "counter", Oracles: so}, 5, 0),
+				e2run("seq-counter-2c-log1100-d3", e2p{Clients: 2, Type: "counter", Prefix: "log1100", Modes: []string{"subscribe"}, Alpha: "one", Oracles: so}, 3, 0), // a log of 1100 operations: a late subscriber, then further pushes
 			}
 		} else {
 			p.BudgetS = 3400
